@@ -65,6 +65,7 @@ LayoutOf(l) == CASE l = "two" -> <<"S", "N">> [] l = "then_word" -> <<"S", "N", 
 KeyOfMember(m) == IF m = "S" THEN Str(FieldWire(IdentOf(c.ident).s, RenameOf(c.rename), RuleForField(Container)))
                   ELSE IF m = "N" THEN Str(FieldWire(Neighbour, None, RuleForField(Container)))
                   ELSE Str(FieldWire(Word(m), None, RuleForField(Container)))
+\* (ts_date: the member gets TypeScript's custom JSON translation; the generated reviver names the member by its JSON key once more)
 \* decor: a typeshare(..) decoration of the field that changes how a backend PRINTS the member (TypeScript readonly, a per-language type
 \* override) - never which JSON key it is bound to
 DecorScope == c.decor # "none" => (c.layout = "two" /\ c.spelling = "merged" /\ c.enum_rule = "none" /\ c.enum_fields_rule = "none")
